@@ -93,8 +93,24 @@ func (in *Interp) installStubs() {
 			return nil
 		},
 		"vmonitor": func(in *Interp, a []Value) Value {
+			was := in.MonitorOn
 			in.MonitorMode = in.concInt(a[0], "vmonitor mode")
 			in.MonitorOn = in.MonitorMode != 0
+			if was && !in.MonitorOn {
+				// the path-level obligation "no (value-changing) write to pre-existing memory"
+				// held on this path: a failing write would have ended the path
+				in.Obligations++
+				in.Discharged++
+			}
+			if in.MonitorOn {
+				// package-level data exists before the run: frozen wholesale
+				seen := map[any]bool{}
+				for g, o := range in.globals {
+					if g.Pkg != nil && g.Pkg.Pkg.Path() == "github.com/itchyny/gojq" {
+						in.freeze(o, seen)
+					}
+				}
+			}
 			return nil
 		},
 		"vlabel": func(in *Interp, a []Value) Value {
